@@ -372,10 +372,12 @@ def algebra_shape(chk, F):
             t = blk["term"]
             if t["k"] == "assert" and t["msg"].get("kind") == "Overflow" and t["msg"].get("op") == "Add":
                 plain = True
-    chk.decide(checked and not plain, "algebra-shape", fk, "exponent-sum-cannot-wrap", fn.where(),
-               "exponents are added with checked_add",
+    import k1
+    pb = k1.producers_bound_powers(F)
+    chk.decide((checked and not plain) or pb[0], "algebra-shape", fk, "exponent-sum-cannot-wrap", fn.where(),
+               "exponents are added with checked_add" if checked and not plain else "the sum is a plain add of two powers within +-(2^31-1): " + pb[1],
                "exponents are added with a plain `a + b`: m^2147483647 multiplied by itself 33 times (`ans*ans`) panics with \"attempt to add "
-               "with overflow\" in a debug build and answers `1 / meter^8589934592` in a release build")
+               "with overflow\" in a debug build and answers `1 / meter^8589934592` in a release build [" + pb[1] + "]")
     # Div = Mul o recip
     fn = F.find(CORE, "<&'a %s as core::ops::arith::Div>::div" % DIM, exact=True)
     names = [t["callee"]["path"] for _, t in fn.calls() if "callee" in t]
